@@ -5,7 +5,7 @@ set -u
 patch=$(readlink -f "$1"); shift
 wt=$(mktemp -d /tmp/tlv-mut-XXXXXX)
 out=$(mktemp -d /tmp/tlv-out-XXXXXX)
-git -C /repo worktree add --detach -q "$wt/repo" HEAD >/dev/null 2>&1 || { echo "worktree failed"; exit 2; }
+git -C /repo worktree add --detach -q "$wt/repo" ${BASE:-HEAD} >/dev/null 2>&1 || { echo "worktree failed"; exit 2; }
 if ! git -C "$wt/repo" apply "$patch"; then echo "PATCH DOES NOT APPLY: $patch"; git -C /repo worktree remove --force "$wt/repo"; rm -rf "$wt" "$out"; exit 2; fi
 for id in "$@"; do
   TLVERIF_REPO="$wt/repo" TLVERIF_OUT="$out" /verif/bin/tlverif check "$id" ${TIER:+--tier $TIER} > "$out/$id.log" 2>&1
